@@ -233,3 +233,521 @@ fn c16_accessors_n3_b() {
 fn c16_accessors_n3_c() {
     c16_name_configs::<3>(18, 27);
 }
+
+// ===========================================================================================
+// C18-H1: escape(s) = s with a backslash before exactly the 14 syntax characters
+// ===========================================================================================
+
+fn is_syntax(c: u32) -> bool {
+    matches!(
+        c,
+        0x5C | 0x5E | 0x24 | 0x2E | 0x7C | 0x3F | 0x2A | 0x2B | 0x28 | 0x29 | 0x5B | 0x5D | 0x7B | 0x7D
+    )
+}
+
+fn enc(c: u32, buf: &mut [u8], at: usize) -> usize {
+    if c < 0x80 {
+        buf[at] = c as u8;
+        1
+    } else if c < 0x800 {
+        buf[at] = 0xC0 | (c >> 6) as u8;
+        buf[at + 1] = 0x80 | (c & 0x3F) as u8;
+        2
+    } else if c < 0x10000 {
+        buf[at] = 0xE0 | (c >> 12) as u8;
+        buf[at + 1] = 0x80 | ((c >> 6) & 0x3F) as u8;
+        buf[at + 2] = 0x80 | (c & 0x3F) as u8;
+        3
+    } else {
+        buf[at] = 0xF0 | (c >> 18) as u8;
+        buf[at + 1] = 0x80 | ((c >> 12) & 0x3F) as u8;
+        buf[at + 2] = 0x80 | ((c >> 6) & 0x3F) as u8;
+        buf[at + 3] = 0x80 | (c & 0x3F) as u8;
+        4
+    }
+}
+
+fn c18_body<const N: usize>() {
+    let mut inb = [0u8; 8];
+    let mut want = [0u8; 12];
+    let mut il = 0usize;
+    let mut wl = 0usize;
+    let mut i = 0;
+    let mut any_syntax = false;
+    let mut any_multi = false;
+    while i < N {
+        let c: u32 = kani::any();
+        kani::assume(c <= 0x10FFFF && !(c >= 0xD800 && c <= 0xDFFF));
+        il += enc(c, &mut inb, il);
+        if is_syntax(c) {
+            want[wl] = 0x5C;
+            wl += 1;
+            any_syntax = true;
+        }
+        if c >= 0x80 {
+            any_multi = true;
+        }
+        wl += enc(c, &mut want, wl);
+        i += 1;
+    }
+    let s: &str = unsafe { core::str::from_utf8_unchecked(&inb[..il]) };
+    let out = escape(s);
+    let ob = out.as_bytes();
+    assert!(ob.len() == wl);
+    let mut k = 0;
+    while k < 12 {
+        if k < wl {
+            assert!(ob[k] == want[k]);
+        }
+        k += 1;
+    }
+    kani::cover!(any_syntax && any_multi, "a syntax character next to a multi-byte character");
+    kani::cover!(!any_syntax, "nothing to escape");
+    core::mem::forget(out);
+}
+
+// @verif props=C18 tier=quick timeout=1200 unwind=14 bound="s = 1 symbolic scalar value (all of Unicode)" funcs="api::escape"
+#[kani::proof]
+#[kani::unwind(14)]
+fn c18_escape_1() {
+    c18_body::<1>();
+}
+
+// @verif props=C18 tier=quick timeout=2400 unwind=14 bound="s = 2 symbolic scalar values" funcs="api::escape"
+#[kani::proof]
+#[kani::unwind(14)]
+fn c18_escape_2() {
+    c18_body::<2>();
+}
+
+// ===========================================================================================
+// C17-H1: expand_replacement == reference expansion, for every template over a small alphabet
+// ===========================================================================================
+
+use crate::insn::{CompiledRegex, Insn, StartPredicate};
+
+const SYMS: [&str; 9] = ["$", "0", "1", "2", "9", "{", "}", "a", "é"];
+const TEXT: &str = "xéyz"; // bytes: x | C3 A9 | y | z ; boundaries 0 1 3 4 5
+const BOUNDS: [usize; 5] = [0, 1, 3, 4, 5];
+
+fn any_text_range() -> Option<Range> {
+    if kani::any() {
+        let a: usize = kani::any();
+        let b: usize = kani::any();
+        kani::assume(a <= b && b < 5);
+        Some(BOUNDS[a]..BOUNDS[b])
+    } else {
+        None
+    }
+}
+
+fn push_bytes(out: &mut [u8; 48], n: &mut usize, src: &[u8]) {
+    let mut i = 0;
+    while i < src.len() {
+        out[*n] = src[i];
+        *n += 1;
+        i += 1;
+    }
+}
+
+fn c17_body<const L: usize>() {
+    // template
+    let mut sym = [0usize; L];
+    let mut tb = [0u8; 8];
+    let mut tl = 0usize;
+    let mut i = 0;
+    while i < L {
+        let s: usize = kani::any();
+        kani::assume(s < 9);
+        sym[i] = s;
+        let b = SYMS[s].as_bytes();
+        tb[tl] = b[0];
+        tl += 1;
+        if b.len() == 2 {
+            tb[tl] = b[1];
+            tl += 1;
+        }
+        i += 1;
+    }
+    let template: &str = unsafe { core::str::from_utf8_unchecked(&tb[..tl]) };
+    // match: whole range + two groups; group 1 is named "a", group 2 unnamed
+    let whole = any_text_range();
+    kani::assume(whole.is_some());
+    let c1 = any_text_range();
+    let c2 = any_text_range();
+    let m = Match {
+        range: whole.clone().unwrap(),
+        captures: vec![c1.clone(), c2.clone()],
+        group_names: vec![Box::<str>::from("a"), Box::<str>::from("")].into_boxed_slice(),
+    };
+    let re = Regex {
+        cr: CompiledRegex {
+            insns: vec![Insn::Goal],
+            brackets: Vec::new(),
+            start_pred: StartPredicate::Arbitrary,
+            loops: 0,
+            groups: 2,
+            group_names: Vec::new().into_boxed_slice(),
+            flags: Flags::default(),
+        },
+    };
+    let mut out = String::new();
+    re.expand_replacement(&m, TEXT, template, &mut out);
+
+    // ---- reference expansion ----
+    let tx = TEXT.as_bytes();
+    let mut want = [0u8; 48];
+    let mut wl = 0usize;
+    let group = |n: usize| -> Option<Range> {
+        if n == 0 {
+            whole.clone()
+        } else if n == 1 {
+            c1.clone()
+        } else if n == 2 {
+            c2.clone()
+        } else {
+            None
+        }
+    };
+    let is_digit = |s: usize| s >= 1 && s <= 4;
+    let digit_val = |s: usize| -> usize {
+        match s {
+            1 => 0,
+            2 => 1,
+            3 => 2,
+            _ => 9,
+        }
+    };
+    let mut i = 0;
+    while i < L {
+        let s = sym[i];
+        if s == 0 {
+            // '$'
+            if i + 1 < L && sym[i + 1] == 0 {
+                push_bytes(&mut want, &mut wl, b"$");
+                i += 2;
+            } else if i + 1 < L && is_digit(sym[i + 1]) {
+                let mut num = 0usize;
+                let mut j = i + 1;
+                while j < L && is_digit(sym[j]) {
+                    num = num * 10 + digit_val(sym[j]);
+                    j += 1;
+                    if num > 65535 {
+                        break;
+                    }
+                }
+                if let Some(r) = group(num) {
+                    push_bytes(&mut want, &mut wl, &tx[r]);
+                }
+                i = j;
+            } else if i + 1 < L && sym[i + 1] == 5 {
+                // "${": find the closing brace
+                let mut k = i + 2;
+                let mut close = L;
+                while k < L {
+                    if close == L && sym[k] == 6 {
+                        close = k;
+                    }
+                    k += 1;
+                }
+                if close < L {
+                    // ${name}: only the name "a" exists (group 1)
+                    if close == i + 3 && sym[i + 2] == 7 {
+                        if let Some(r) = c1.clone() {
+                            push_bytes(&mut want, &mut wl, &tx[r]);
+                        }
+                    }
+                    i = close + 1;
+                } else {
+                    // unterminated: literal "${" followed by the rest
+                    push_bytes(&mut want, &mut wl, b"${");
+                    let mut k = i + 2;
+                    while k < L {
+                        push_bytes(&mut want, &mut wl, SYMS[sym[k]].as_bytes());
+                        k += 1;
+                    }
+                    i = L;
+                }
+            } else {
+                push_bytes(&mut want, &mut wl, b"$");
+                i += 1;
+            }
+        } else {
+            push_bytes(&mut want, &mut wl, SYMS[s].as_bytes());
+            i += 1;
+        }
+    }
+    let ob = out.as_bytes();
+    assert!(ob.len() == wl, "expansion has the wrong length");
+    let mut k = 0;
+    while k < 48 {
+        if k < wl {
+            assert!(ob[k] == want[k], "expansion differs from the reference");
+        }
+        k += 1;
+    }
+    kani::cover!(wl > L * 2, "a group was expanded");
+    kani::cover!(wl == 0, "everything expanded to nothing");
+    core::mem::forget(out);
+    core::mem::forget(m);
+    core::mem::forget(re);
+}
+
+// @verif props=C17 tier=quick timeout=2400 unwind=12 bound="templates of 2 symbols over {$,0,1,2,9,{,},a,e-acute}; 2 groups (one named) with symbolic ranges over a 5-byte text with a multi-byte char" funcs="Regex::expand_replacement,Match::group,Match::named_group"
+#[kani::proof]
+#[kani::unwind(12)]
+fn c17_expand_2() {
+    c17_body::<2>();
+}
+
+// @verif props=C17 tier=quick timeout=3000 unwind=12 bound="templates of 3 symbols over {$,0,1,2,9,{,},a,e-acute}; 2 groups" funcs="Regex::expand_replacement,Match::group,Match::named_group"
+#[kani::proof]
+#[kani::unwind(12)]
+fn c17_expand_3() {
+    c17_body::<3>();
+}
+
+// @verif props=C17 tier=thorough timeout=5400 mem=30 unwind=14 bound="templates of 4 symbols (reaches ${a} and $$$1)" funcs="Regex::expand_replacement,Match::group,Match::named_group"
+#[kani::proof]
+#[kani::unwind(14)]
+fn c17_expand_4() {
+    c17_body::<4>();
+}
+
+// ===========================================================================================
+// C20: the Pattern-trait searcher over an ARBITRARY deterministic engine (feature "pattern")
+// ===========================================================================================
+#[cfg(feature = "pattern")]
+mod c20 {
+    use super::super::*;
+    use crate::classicalbacktrack::MatchAttempter;
+    use crate::cursor::Direction;
+    use crate::indexing::InputIndexer;
+    use crate::insn::{CompiledRegex, Insn, StartPredicate};
+    use crate::types::IP;
+    use core::str::pattern::{Pattern, ReverseSearcher, SearchStep, Searcher};
+
+    const NMAX: usize = 3;
+    const BYTES: usize = 12;
+
+    pub struct Hay {
+        pub n: usize,
+        pub buf: [u8; BYTES],
+        pub off: [usize; NMAX + 1],
+        pub len: usize,
+    }
+
+    pub fn any_hay() -> Hay {
+        let n: usize = kani::any();
+        kani::assume(n <= NMAX);
+        let mut buf = [0u8; BYTES];
+        let mut off = [0usize; NMAX + 1];
+        let mut at = 0usize;
+        let mut i = 0;
+        while i < NMAX {
+            if i < n {
+                let c: u32 = kani::any();
+                kani::assume(c <= 0x10FFFF && !(c >= 0xD800 && c <= 0xDFFF));
+                at += super::enc(c, &mut buf, at);
+            }
+            off[i + 1] = at;
+            i += 1;
+        }
+        Hay { n, buf, off, len: at }
+    }
+
+    static mut ORACLE_END: [Option<usize>; BYTES + 1] = [None; BYTES + 1];
+
+    pub fn stub_try_at_pos<'a: 'a, Input: InputIndexer, Dir: Direction>(
+        _this: &mut MatchAttempter<'a, Input>,
+        inp: Input,
+        _ip: IP,
+        pos: Input::Position,
+        _dir: Dir,
+    ) -> Option<Input::Position> {
+        let off = inp.pos_to_offset(pos);
+        unsafe {
+            match ORACLE_END[off] {
+                None => None,
+                Some(e) => inp.try_move_right(inp.left_end(), e),
+            }
+        }
+    }
+
+    fn is_boundary(hy: &Hay, o: usize) -> bool {
+        let mut i = 0;
+        let mut r = false;
+        while i <= NMAX {
+            if i <= hy.n && hy.off[i] == o {
+                r = true;
+            }
+            i += 1;
+        }
+        r
+    }
+
+    fn any_oracle(hy: &Hay) {
+        let mut o = 0;
+        while o <= BYTES {
+            let v: Option<usize> = if o <= hy.len && is_boundary(hy, o) {
+                if kani::any() {
+                    let e: usize = kani::any();
+                    kani::assume(e >= o && e <= hy.len && is_boundary(hy, e));
+                    Some(e)
+                } else {
+                    None
+                }
+            } else {
+                Some(BYTES + 7) // poison: never queried by correct code
+            };
+            unsafe {
+                ORACLE_END[o] = v;
+            }
+            o += 1;
+        }
+    }
+
+    fn model_first(hy: &Hay, cursor: usize) -> Option<(usize, usize)> {
+        let mut i = 0;
+        let mut res = None;
+        while i <= NMAX {
+            if res.is_none() && i <= hy.n && hy.off[i] >= cursor {
+                if let Some(e) = unsafe { ORACLE_END[hy.off[i]] } {
+                    res = Some((hy.off[i], e));
+                }
+            }
+            i += 1;
+        }
+        res
+    }
+
+    fn next_boundary_after(hy: &Hay, o: usize) -> Option<usize> {
+        let mut i = 0;
+        let mut res = None;
+        while i <= NMAX {
+            if res.is_none() && i <= hy.n && hy.off[i] > o {
+                res = Some(hy.off[i]);
+            }
+            i += 1;
+        }
+        res
+    }
+
+    fn mk_regex() -> Regex {
+        Regex {
+            cr: CompiledRegex {
+                insns: vec![Insn::Goal],
+                brackets: Vec::new(),
+                start_pred: StartPredicate::Arbitrary,
+                loops: 0,
+                groups: 0,
+                group_names: Vec::new().into_boxed_slice(),
+                flags: Flags::default(),
+            },
+        }
+    }
+
+    // @verif props=C20 tier=quick builds=pattern sub=c20 timeout=3000 unwind=15 bound="haystack <= 3 symbolic scalars, arbitrary engine table, next() until Done (<= 2*chars+4 steps)" funcs="RegexSearcher::next,Regex::find_from,<&Regex as Pattern>::into_searcher,exec::Matches::next,BacktrackExecutor::next_match"
+    // @verif stubs="MatchAttempter::try_at_pos -> arbitrary deterministic table END[offset]"
+    #[kani::proof]
+    #[kani::unwind(15)]
+    #[kani::stub(crate::classicalbacktrack::MatchAttempter::try_at_pos, stub_try_at_pos)]
+    fn c20_searcher_forward() {
+        let hy = any_hay();
+        let text: &str = unsafe { core::str::from_utf8_unchecked(&hy.buf[..hy.len]) };
+        any_oracle(&hy);
+        let re = mk_regex();
+        let mut s = (&re).into_searcher(text);
+        assert!(s.haystack().len() == hy.len);
+        let mut at = 0usize; // where the next step must begin
+        let mut cursor: Option<usize> = Some(0); // find_iter model
+        let mut done = false;
+        let mut nmatch = 0usize;
+        let mut step = 0;
+        while step < 2 * NMAX + 5 {
+            let st = s.next();
+            match st {
+                SearchStep::Done => {
+                    if !done {
+                        assert!(at == hy.len, "Done before the haystack is covered");
+                        // every find_iter match must have been reported
+                        let rest = match cursor {
+                            None => None,
+                            Some(c) => model_first(&hy, c),
+                        };
+                        assert!(rest.is_none(), "Done although find_iter has another match");
+                    }
+                    done = true;
+                }
+                SearchStep::Match(a, b) | SearchStep::Reject(a, b) => {
+                    assert!(!done, "a step after Done");
+                    assert!(a == at, "steps must be adjacent");
+                    assert!(a <= b && b <= hy.len && is_boundary(&hy, a) && is_boundary(&hy, b));
+                    at = b;
+                    if let SearchStep::Match(_, _) = st {
+                        let want = match cursor {
+                            None => None,
+                            Some(c) => model_first(&hy, c),
+                        };
+                        assert!(want == Some((a, b)), "Match steps are exactly the find_iter matches, in order");
+                        nmatch += 1;
+                        cursor = if b != a { Some(b) } else { next_boundary_after(&hy, b) };
+                    } else {
+                        assert!(a < b, "an empty Reject is useless and stalls callers");
+                    }
+                }
+            }
+            step += 1;
+        }
+        assert!(done, "searcher must finish within 2*chars+5 steps");
+        kani::cover!(nmatch >= 2, "two matches");
+        kani::cover!(nmatch == hy.n + 1 && hy.n >= 2, "empty match at every position");
+        core::mem::forget(re);
+    }
+
+    // @verif props=C20 tier=quick builds=pattern sub=c20 timeout=3000 unwind=15 bound="haystack <= 3 symbolic scalars, arbitrary engine table, next_back() until Done" funcs="RegexSearcher::next_back,find_last_match_before,Regex::find_from"
+    // @verif stubs="MatchAttempter::try_at_pos -> arbitrary deterministic table END[offset]"
+    #[kani::proof]
+    #[kani::unwind(15)]
+    #[kani::stub(crate::classicalbacktrack::MatchAttempter::try_at_pos, stub_try_at_pos)]
+    fn c20_searcher_backward() {
+        let hy = any_hay();
+        let text: &str = unsafe { core::str::from_utf8_unchecked(&hy.buf[..hy.len]) };
+        any_oracle(&hy);
+        let re = mk_regex();
+        let mut s = (&re).into_searcher(text);
+        let mut at = hy.len; // where the next (earlier) step must END
+        let mut done = false;
+        let mut step = 0;
+        while step < 2 * NMAX + 5 {
+            match s.next_back() {
+                SearchStep::Done => {
+                    if !done {
+                        assert!(at == 0, "Done before the haystack is covered");
+                    }
+                    done = true;
+                }
+                st @ (SearchStep::Match(_, _) | SearchStep::Reject(_, _)) => {
+                    let (a, b, is_match) = match st {
+                        SearchStep::Match(a, b) => (a, b, true),
+                        SearchStep::Reject(a, b) => (a, b, false),
+                        SearchStep::Done => (0, 0, false),
+                    };
+                    assert!(!done, "a step after Done");
+                    assert!(b == at, "steps must be adjacent");
+                    assert!(a <= b && is_boundary(&hy, a) && is_boundary(&hy, b));
+                    at = a;
+                    if is_match {
+                        assert!(unsafe { ORACLE_END[a] } == Some(b), "a reported match is a match of the engine");
+                    } else {
+                        assert!(a < b);
+                    }
+                }
+            }
+            step += 1;
+        }
+        assert!(done);
+        kani::cover!(done && hy.n >= 2, "finished on a two-character haystack");
+        core::mem::forget(re);
+    }
+}
